@@ -132,6 +132,10 @@ func main() {
 	r := hx.Rng(*seed, 0)
 	fail := func(clause, sig, what string, ops interface{}) {
 		run.Violate(hx.Violation{Property: "C18", Clause: clause, Signature: sig, What: what, Ops: ops})
+		if clause == "fenced_change" {
+			// C02's closed-loop argument assumes dragonboat's ordered config change on every started replica
+			run.Violate(hx.Violation{Property: "C02", Clause: "execute_step", Signature: sig, What: what, Ops: ops})
+		}
 		if clause == "instantiate_table" {
 			// the execute step of the report -> schedule -> deliver -> execute loop: the loop model (C01) assumes this table
 			run.Violate(hx.Violation{Property: "C01", Clause: "execute_step", Signature: sig, What: what, Ops: ops})
@@ -525,6 +529,32 @@ func runScenario(d *scripted, dAddr string, cfg *pb.Config, fail func(clause, si
 	inst(false, true, true, restored)
 	if !restored {
 		fail("instantiate_table", "restore-no-effect", "a restore request did not restart the replica from its data", nil)
+	}
+	// 6b. the restored replica fences membership changes like a launched one: a change carrying a stale version, handed to
+	// the restored replica's NodeHost, has no effect on any replica
+	if restored && wait(func() bool { return members(B) == "[1 2 4]" }) {
+		stale := cci(A) - 1
+		if cci(A) > 0 && stale > 0 {
+			wait(func() bool { return cci(B) == cci(A) && cci(B) == cci(D) })
+			va, vb := cci(A), cci(B)
+			if vb > va && va == cci(D) && va != 0 {
+				// the same log applied under the same rules gives the same membership version on every replica; a restored
+				// replica that is ahead of two replicas which never stopped has accepted a change they refused
+				time.Sleep(time.Second)
+				if cci(A) == va && cci(B) == vb && cci(D) == va {
+					fail("fenced_change", "restored-replica-membership-diverges", fmt.Sprintf("the replica started by a restore request ended up at membership version %d while the replicas that kept running are at %d: it accepted a change they refused as stale", vb, va), nil)
+				}
+			}
+			set(B, &pb.NodeHostRequest{Change: &pb.Request{Type: pb.Request_DELETE, ShardId: sid, Members: []uint64{4}, ConfChangeId: stale}, RaftAddress: B.Addr})
+			round(B, false)
+			time.Sleep(600 * time.Millisecond)
+			step("stale_change_after_restore")
+			if va != vb {
+				run.Count("c18:inconclusive_scenario")
+			} else if members(B) != "[1 2 4]" || members(A) != "[1 2 4]" || cci(B) != vb || cci(A) != va {
+				fail("fenced_change", "unfenced-change-after-restore", "a remove-member request carrying a stale membership version, executed on a NodeHost whose replica was started by a restore request, took effect: members seen by the restored replica "+members(B)+", by another replica "+members(A)+fmt.Sprintf("; membership version of the restored replica %d -> %d, of the other %d -> %d", vb, cci(B), va, cci(A)), nil)
+			}
+		}
 	}
 	// 7. restore for a replica without data: refused
 	set(C, &pb.NodeHostRequest{Change: &pb.Request{Type: pb.Request_CREATE, ShardId: sid, Members: m}, ReplicaIdList: m, AddressList: am,
